@@ -193,7 +193,7 @@ def fresh_interpreter_reference(cfg: str, key: dict) -> dict:
 
     env = dict(os.environ, PYTHONHASHSEED=ZygoteSet.hashseed_of(cfg), PYTHONPATH=str(core.VERIF),
                VERIF_REPO=str(core.REPO), PYTHONDONTWRITEBYTECODE="1")
-    proc = subprocess.run([core.PYTHON, "-m", "simverif.fresh", PROFILE, cfg, "reference", json.dumps({"key": key})],
+    proc = subprocess.run([*core.no_aslr_prefix(), core.PYTHON, "-m", "simverif.fresh", PROFILE, cfg, "reference", json.dumps({"key": key})],
                           env=env, cwd=str(core.VERIF), capture_output=True, text=True, timeout=600, check=False)
     if proc.returncode != 0 or not proc.stdout:
         raise HarnessError(f"fresh interpreter failed: {proc.stderr[-300:]}")
